@@ -14,6 +14,7 @@ import farm
 import expgen
 import exprender
 import expmodel
+import c02acc
 
 PROP = "C02"
 RULE = ("Hypothesis draws EXPRESS schemas (keyword-like and case-colliding identifiers, chains/diamonds/multiple supertypes, "
@@ -299,6 +300,10 @@ def main(tier, seed):
                 probs = ["dictionary dump died: rc=%s %s" % (r["rc"], r["err"][-500:])]
             else:
                 probs = compare(sd, r["json"])
+                ap, npairs, nskip = c02acc.run(lib)
+                probs += ["accessor: " + x for x in ap]
+                ev.bump("accessor-pairs-round-tripped", npairs)
+                ev.bump("accessor-pairs-not-exercised(aggregate/select valued)", nskip)
         if probs:
             sig = re.sub(r"\d+", "N", probs[0])[:80]
             if all(("declared bounds [-" in p or "declared bounds [" in p and ":-" in p or "[??" in p) for p in probs):
@@ -339,6 +344,7 @@ def replay(path):
         return 1
     r = farm.drv(lib, ["dict"], timeout=60)
     probs = compare(sd, r["json"]) if r["json"] else ["dictionary dump died"]
+    probs += ["accessor: " + x for x in c02acc.run(lib)[0]]
     shutil.rmtree(root, ignore_errors=True)
     if probs:
         common.print_violation(PROP, path, "; ".join(probs[:6]))
